@@ -82,6 +82,8 @@ var c01Cells = []struct{ name, prog string }{
 	{"dostar.sequential-step", "(do* ((vi 0 (+ vi 1)) (va 0 (+ va vi))) ((>= vi 3) (vtr va)) (vtr vi))"},
 	{"do.var-without-step", "(do ((vi 0 (+ vi 1)) (va (vtr 5))) ((>= vi 2) (vtr va)) (vtr vi))"},
 	{"dostar.var-without-step", "(do* ((vi 0 (+ vi 1)) (va (vtr 5)) vb) ((>= vi 2) (vtr (list va vb))) (vtr vi))"},
+	{"do.atom-end-test", "(do ((vi 0 (+ vi 1)) (vdone nil (> vi 1))) (vdone (vtr vi)) (vtr 7))"},
+	{"dostar.atom-end-test", "(do* ((vi 0 (+ vi 1)) (vdone nil (> vi 1))) (vdone (vtr vi)) (vtr 7))"},
 	{"do.no-result", "(do ((vi 0 (+ vi 1))) ((>= vi 2)) (vtr vi))"},
 	{"do.parallel-init", "(let ((vi 7)) (do ((vi 0 (+ vi 1)) (va vi)) ((>= vi 1) (vtr va))))"},
 	{"dostar.sequential-init", "(let ((vi 7)) (do* ((vi 0 (+ vi 1)) (va vi)) ((>= vi 1) (vtr va))))"},
@@ -142,6 +144,7 @@ func evRun(c *lib.Ctx, sweep []evCase, nComposite int, ctl bool, avoid func(cell
 	c.Rng = lib.NewRng(evMix(c.Seed + 0x5eed))
 	cases := append([]evCase{}, sweep...)
 	hist := map[string]int{}
+	rejected := []string{}
 	if v := os.Getenv("VERIF_EV_N"); v != "" { // debugging aid: override the number of composite cases
 		fmt.Sscanf(v, "%d", &nComposite)
 	}
@@ -149,6 +152,15 @@ func evRun(c *lib.Ctx, sweep []evCase, nComposite int, ctl bool, avoid func(cell
 		src := evGenProgram(c.Rng, i, ctl, avoid, hist)
 		cs := evNewCase(src, "", "", "composite")
 		cs.prefix = fmt.Sprintf("k%d", i)
+		if ok, why := evExitPathsOK(cs.forms, avoid); !ok {
+			// independent validation of the generator: never judge a program that places an exit
+			// behind a listed cell (expected count: 0)
+			c.Ev.Count("generator_programs_rejected_by_exit_path_check", 1)
+			if len(rejected) < 5 {
+				rejected = append(rejected, why+": "+cs.src)
+			}
+			continue
+		}
 		cases = append(cases, cs)
 	}
 	reqs := make([]string, len(cases))
@@ -177,10 +189,13 @@ func evRun(c *lib.Ctx, sweep []evCase, nComposite int, ctl bool, avoid func(cell
 			continue
 		}
 		t1 := time.Now()
+		if os.Getenv("VERIF_EV_DEBUG") == "2" {
+			_ = os.WriteFile("/var/tmp/ev-current-case.txt", []byte(cs.src+"\n"), 0o644)
+		}
 		impl := evRunImpl(cs)
 		implWall += time.Since(t1)
 		if dt := time.Since(t1); dt > 300*time.Millisecond && os.Getenv("VERIF_EV_DEBUG") != "" {
-			fmt.Fprintf(os.Stderr, "slow case (%v, %d steps): %s\n   impl %s\n   model %s\n", dt, evSteps, cs.src, impl, model)
+			fmt.Fprintf(os.Stderr, "slow case (%v): %s\n   impl %s\n   model %s\n", dt, cs.src, impl, model)
 		}
 		c.Ev.Case(cs.src, evNontrivial(cs, model))
 		if model.kind == "err" {
@@ -230,7 +245,7 @@ func evRun(c *lib.Ctx, sweep []evCase, nComposite int, ctl bool, avoid func(cell
 			if shrunk < 4 { // shrinking is bounded per run; later disagreements are reported as found
 				shrunk++
 				t2 := time.Now()
-				min, mi, mm = evShrink(c, cs, aspect, impl, model)
+				min, mi, mm = evShrink(c, cs, aspect, impl, model, avoid)
 				shrinkWall += time.Since(t2)
 			}
 			sig := fmt.Sprintf("composite form=%s aspect=%s", head, aspect)
@@ -251,6 +266,9 @@ func evRun(c *lib.Ctx, sweep []evCase, nComposite int, ctl bool, avoid func(cell
 	c.Ev.Coverage["hist_generated_forms"] = fh
 	c.Ev.Coverage["impl_wall_s"] = implWall.Seconds()
 	c.Ev.Coverage["shrink_wall_s"] = shrinkWall.Seconds()
+	c.Ev.Coverage["generator_rejected_samples"] = rejected
+	c.Ev.Coverage["worker_restarts"] = evRestarts
+	c.Ev.Coverage["worker_gave_up_on"] = evGaveUp
 	c.Ev.Coverage["sweep_failures_not_listed"] = sweepFail
 	c.Ev.Coverage["traces_validated_against_impl"] = len(cases) - setAside
 	c.Ev.Coverage["agreements"] = agree
@@ -289,9 +307,14 @@ func bucket(n int) string {
 // a claim, the implementation still disagrees with the same aspect, and it is smaller. Because the
 // interpreter keeps global state per name (functions, variables created on first sight), every
 // candidate is run under fresh identifiers.
-func evShrink(c *lib.Ctx, cs evCase, aspect string, impl, model evObs) (evCase, evObs, evObs) {
+func evShrink(c *lib.Ctx, cs evCase, aspect string, impl, model evObs, avoid func(cell, exit string) bool) (evCase, evObs, evObs) {
 	cur := cs
 	budget := 1200 // implementation runs
+	// candidates may run away (an exit that is not forwarded removes the base case of a recursion):
+	// short deadline, and shrinking stops after three such candidates
+	savedDeadline, restarts0 := evDeadline, evRestarts
+	evDeadline = 2 * time.Second
+	defer func() { evDeadline = savedDeadline }()
 	for round := 0; round < 40 && budget > 0; round++ {
 		cands := evShrinkCandidates(cur)
 		if len(cands) == 0 {
@@ -319,8 +342,15 @@ func evShrink(c *lib.Ctx, cs evCase, aspect string, impl, model evObs) (evCase, 
 			if m.kind == "err" && (m.value == "program-error" || m.value == "unbound-variable" || m.value == "undefined-function") {
 				continue // do not shrink into malformed programs
 			}
+			if evHasAtomDoTest(cd.forms) {
+				continue
+			}
+			if ok, _ := evExitPathsOK(cd.forms, avoid); !ok {
+				continue // the candidate moved an exit behind a listed cell
+			}
 			budget--
-			if budget < 0 {
+			if budget < 0 || evRestarts-restarts0 >= 3 {
+				budget = -1
 				break
 			}
 			if o := evRunImpl(cd); evAspect(o, m) == aspect {
@@ -333,6 +363,34 @@ func evShrink(c *lib.Ctx, cs evCase, aspect string, impl, model evObs) (evCase, 
 		}
 	}
 	return cur, impl, model
+}
+
+// evHasAtomDoTest: some do / do* form has an end-test clause that is not (list …): on a tree without
+// repo-patches/C01/0005 such a loop never ends and evaluates nothing that could be interrupted.
+func evHasAtomDoTest(forms []*sx) bool {
+	var walk func(x *sx) bool
+	walk = func(x *sx) bool {
+		if x.k != 'l' {
+			return false
+		}
+		if len(x.l) >= 3 && x.l[0].k == 'y' && (x.l[0].s == "do" || x.l[0].s == "do*") {
+			if tc := x.l[2]; tc.k != 'l' || len(tc.l) == 0 || tc.l[0].k != 'l' {
+				return true
+			}
+		}
+		for _, e := range x.l {
+			if walk(e) {
+				return true
+			}
+		}
+		return false
+	}
+	for _, f := range forms {
+		if walk(f) {
+			return true
+		}
+	}
+	return false
 }
 
 // evRename gives every generated identifier (they all contain the case prefix) a new prefix.
